@@ -361,13 +361,20 @@ def ptree(g, d):
                 [r.choice(PNAMES) for _ in range(r.weighted([(1, 60), (2, 25), (3, 15)]))])
     k = r.weighted([("bin", 30), ("assign", 8), ("un", 10), ("tern", 12), ("tern1", 6), ("slice", 8), ("short", 8), ("call", 9), ("block", 9)])
     sub = lambda: ptree(g, d - 1)
-    if k == "bin":    return ("bin", r.choice(ARITH + REL), sub(), sub())
+    # widths and shift amounts stay small literals (or small sums): these texts are also EVALUATED by the implementation
+    # and by the extracted model, whose per-bit loops must stay bounded (magnitudes are C19's subject)
+    def small():
+        n = r.choice([0, 1, 3, 4, 7, 8, 16, 24, 31, 32, 33, 64, 100])
+        return ("num", n, None, str(n)) if r.chance(0.8) else ("bin", "Add", ("num", n, None, str(n)), ("num", 0, None, "0"))
+    if k == "bin":
+        op = r.choice(ARITH + REL)
+        return ("bin", op, sub(), small() if op in ("Shl", "Shr") else sub())
     if k == "assign": return ("bin", "Assign", sub(), sub())
     if k == "un":     return ("un", r.choice(["Neg", "Not"]), sub())
     if k == "tern":   return ("tern", sub(), sub(), sub())
     if k == "tern1":  return ("tern", sub(), sub(), ("block", []))
-    if k == "slice":  return ("slice", sub(), sub(), sub())
-    if k == "short":  return ("short", sub(), sub())
+    if k == "slice":  return ("slice", small(), small(), sub())
+    if k == "short":  return ("short", small(), sub())
     if k == "call":   return ("call", sub(), [sub() for _ in range(r.range(0, 3))])
     return ("block", [sub() for _ in range(r.range(0, 3))])
 
